@@ -146,3 +146,34 @@ pub use wtransport_proto as proto;
 pub use quinn;
 
 mod driver;
+
+/// Verification hooks (feature `verif-hooks`, off by default): re-exports of internal
+/// building blocks so that they can be explored directly.
+#[cfg(feature = "verif-hooks")]
+#[doc(hidden)]
+pub mod verif {
+    pub use crate::driver::utils::bichannel;
+    pub use crate::driver::utils::shared_result;
+    pub use crate::driver::utils::BiChannelEndpoint;
+    pub use crate::driver::utils::SendError;
+    pub use crate::driver::utils::SharedResultGet;
+    pub use crate::driver::utils::SharedResultSet;
+    pub use crate::driver::utils::TrySendError;
+
+    /// Serializes an HTTP3 datagram exactly as `Connection::send_datagram` does.
+    pub fn datagram_write(session_id: crate::SessionId, payload: &[u8]) -> bytes::Bytes {
+        crate::datagram::Datagram::write(session_id, payload).into_quic_bytes()
+    }
+
+    /// Parses a QUIC datagram exactly as the driver does for incoming datagrams.
+    pub fn datagram_read(
+        quic_dgram: bytes::Bytes,
+    ) -> Result<crate::datagram::Datagram, crate::proto::error::ErrorCode> {
+        crate::datagram::Datagram::read(quic_dgram)
+    }
+
+    /// The datagram header overhead used by `Connection::max_datagram_size`.
+    pub fn datagram_header_size(session_id: crate::SessionId) -> usize {
+        crate::datagram::Datagram::header_size(session_id)
+    }
+}
